@@ -1,7 +1,8 @@
 """C14 — SCMP handling: bounded quoting, valid checksums, faithful echo, no error loops."""
 import templates as T
 import panic as PN
-from facts import tokens, fmt, short, walk, strip_sites
+import enc as ENC
+from facts import tokens, fmt, short, walk, strip_sites, const_int
 
 CRATES = ["sciparse", "scion_stack", "pocketscion", "snap_dataplane"]
 
@@ -176,8 +177,10 @@ def run(F, R, tier, cfg):
         d = [n for n in walk(o[2]) if n[0] == "call" and n[1].endswith("::data")]
         ok = ok and bool(d)
         if ok:
-            r0 = strip_sites(o[0][2][0])
-            ok = strip_sites(o[1][2][0]) == r0 and strip_sites(d[0][2][0]) == r0
+            # the three receivers are the same request view (compared to a uniform depth: the data
+            # operand sits one call deeper, so its tree hits the depth limit earlier)
+            r0 = _cut(strip_sites(o[0][2][0]), 6)
+            ok = _cut(strip_sites(o[1][2][0]), 6) == r0 and _cut(strip_sites(d[0][2][0]), 6) == r0 and "top" not in tokens(r0)
         R.ob("FLOW-echo", "EchoReply in %s = (identifier, sequence_number, data) of one request" % short(p), ok, True,
              {"rule": "FLOW-echo", "fn": p, "args": [fmt(x, 100) for x in o], "holds": ok})
         if not ok:
@@ -206,7 +209,8 @@ def run(F, R, tier, cfg):
             pl = T.op_place(c.args[2])
             ok = any(t.endswith("::src_scion_addr") for t in tokens(o[1])) and bool(revs)
             if ok and pl is not None:
-                ok = any(mb.dominates(x.bb, c.bb) and _refs_local(mb, x.args[0], pl[0]) for x in revs)
+                roots = _move_roots(mb, pl[0])
+                ok = any(mb.dominates(x.bb, c.bb) and any(_refs_local(mb, x.args[0], r) for r in roots) for x in revs)
             R.ob("FLOW-echo", "simulator reply: dst=request src, path reversed before use", ok, True)
             if not ok:
                 R.violation("FLOW-echo", ms + "/addressing", "the simulator's SCMP reply is not sent back to the requester over the reversed path", c.span.loc)
@@ -221,29 +225,15 @@ def run(F, R, tier, cfg):
         n += 1
         R.fn(p)
         mo = pb.origin(c.args[3])
-        mt = tokens(mo)
-        adts = [t for t in mt if t.startswith("adt:") and "::scmp::model::" in t]
-        informational = bool(adts) and all(any(i in t for i in INFO_ADTS) or t.endswith("ScmpEchoReply::ScmpEchoReply") or t.endswith("ScmpTracerouteReply::ScmpTracerouteReply") for t in adts) \
-            and not any(t.startswith("param:") for t in mt) and not any(t.endswith("create_inbound_scmp_error") for t in mt)
-        if informational:
-            R.ob("GS-no-error-loop", "%s builds only informational replies (%s)" % (short(p), sorted(a.split("::")[-1] for a in adts)), True, True)
+        alts = mo[1] if mo[0] == "phi" else (mo,)
+        def _info(a):
+            return a[0] == "agg" and a[1][0] == "adt" and a[1][1].endswith("::scmp::model::ScmpMessage") and a[1][2] in ("EchoReply", "TracerouteReply", "EchoRequest", "TracerouteRequest")
+        if alts and all(_info(a) for a in alts):
+            R.ob("GS-no-error-loop", "%s builds only informational replies (%s)" % (short(p), sorted(a[1][2] for a in alts)), True, True)
             continue
-        def ep(tk, o, g):
-            return any(t.endswith("::is_error") for t in tk)
-        ok = False
-        why = "no is_error() test dominates the construction"
-        for g in sorted(pb.dom.get(c.bb, ())):
-            t = pb.term(g)
-            if t[0] != "switch":
-                continue
-            o = pb.origin(t[1])
-            if not ep(tokens(o), o, g):
-                continue
-            # the construction must be unreachable from at least one edge (the is_error == true one)
-            cut = [s for s in pb.succ[g] if c.bb not in pb.reach([s], avoid=[g])]
-            if cut:
-                ok = True
-        R.ob("GS-no-error-loop", "SCMP reply construction in %s guarded by !is_error()" % short(p), ok, True)
+        ok, why = _error_guarded(F, p, c.bb, 3)
+        R.ob("GS-no-error-loop", "SCMP reply construction in %s guarded by a not-an-SCMP-error test of the triggering packet" % short(p), ok, True,
+             {"rule": "GS-no-error-loop", "fn": p, "loc": c.span.loc, "how": why, "holds": ok})
         if not ok:
             R.violation("GS-no-error-loop", p, "an SCMP error can be sent in response to a packet that is itself an SCMP error: %s" % why, c.span.loc,
                         {"message_origin": fmt(mo, 200)})
@@ -279,6 +269,115 @@ def run(F, R, tier, cfg):
         R.ob("GS-handler", "%s replies only to EchoRequest" % short(p), ok, True)
         if not ok:
             R.violation("GS-handler", p, "SCMP handler can reply to something other than an echo request", F.loc(p))
+
+
+_pred_memo = {}
+
+
+def is_error_predicate(F, fn, depth=3):
+    """a workspace fn -> bool whose result depends on ScmpMessage*/View::is_error (directly or through
+    another such predicate): e.g. PacketPolicyError::offending_packet_is_scmp_error"""
+    if fn in _pred_memo:
+        return _pred_memo[fn]
+    _pred_memo[fn] = False
+    e = F.fns.get(fn)
+    b = F.body(fn)
+    res = False
+    if fn.endswith("::is_error") and "::scmp::" in fn:
+        res = True
+    elif e and b is not None and e.get("output") == "bool" and depth > 0:
+        tk = tokens(b.local_origin(0))
+        conds = set()
+        for g in b.live_blocks():
+            t = b.term(g)
+            if t[0] == "switch":
+                conds |= tokens(b.origin(t[1]))
+        for t in tk | conds:
+            if t.startswith("fn:") and (t.endswith("::is_error") and "::scmp::" in t or (t[3:] != fn and t[3:] in F.fns and is_error_predicate(F, t[3:], depth - 1))):
+                res = True
+    _pred_memo[fn] = res
+    return res
+
+
+def _error_guarded(F, fn, site, depth):
+    """the construction at `site` is not reachable when the triggering packet tested as an SCMP error:
+    following only the `Scmp` edge of packet-classification switches, every path entry→site passes a
+    branch on an is-error predicate one of whose edges cannot reach the site; or (private helper) every
+    caller is guarded that way"""
+    b = F.body(fn)
+    guards = []
+    for g in sorted(b.live_blocks()):
+        t = b.term(g)
+        if t[0] != "switch" or const_int(t[1]) is not None:
+            continue
+        tk = tokens(b.origin(t[1]))
+        if any(x.startswith("fn:") and is_error_predicate(F, x[3:]) for x in tk):
+            if [sx for sx in b.succ[g] if site not in b.reach([sx], avoid=[g])]:
+                guards.append(g)
+    if guards:
+        # legitimate bypass: the packet classified as something other than SCMP
+        succ = [list(x) for x in b.succ]
+        cls = F.adts.get("sciparse::proto::packet::classify::ClassifiedPacketView")
+        scmp_d = [v[1] for v in cls["variants"] if v[0] == "Scmp"] if cls else []
+        for g in sorted(b.live_blocks()):
+            t = b.term(g)
+            if t[0] != "switch":
+                continue
+            o = b.origin(t[1])
+            if o[0] == "disc" and any(x.endswith("::try_classify") for x in tokens(o)) and "adt:core::result::Result" not in "".join(tokens(o)) and scmp_d:
+                inner = o[1]
+                # only the discriminant of the classified value itself (not of the Result wrapping it)
+                if inner[0] in ("field", "downcast") or (inner[0] == "call" and inner[1].endswith("::branch")) or True:
+                    arms = {v: tg for v, tg in t[2]}
+                    if all(d in arms for d in scmp_d) and len(t[2]) + 1 >= 2 and _is_classified(b, o):
+                        succ[g] = [arms[d] for d in scmp_d]
+        if site not in b.reach([0], avoid=guards, succ=succ):
+            return True, "guard block(s) %s in %s" % (guards, short(fn))
+    if depth <= 0:
+        return False, "no is_error() test controls the construction in %s" % short(fn)
+    e = F.fns.get(fn, {})
+    if e.get("vis") == "pub":
+        return False, "no is_error() test controls the construction in %s (public function)" % short(fn)
+    callers = T.call_sites(F, fn)
+    if not callers:
+        return False, "no is_error() test controls the construction in %s and no callers found" % short(fn)
+    for (cf, cc) in callers:
+        ok, why = _error_guarded(F, cf, cc.bb, depth - 1)
+        if not ok:
+            return False, "caller %s of %s: %s" % (short(cf), short(fn), why)
+    return True, "all %d caller(s) of %s guarded" % (len(callers), short(fn))
+
+
+def _is_classified(b, o):
+    """the discriminant read is that of a ClassifiedPacketView value (payload of try_classify's Ok)"""
+    x = o[1]
+    return x[0] in ("field", "downcast", "deref") and "top" not in tokens(x)
+
+
+def _cut(t, d):
+    """origin tree truncated at depth d"""
+    if not isinstance(t, tuple):
+        return t
+    if d <= 0:
+        return ("…",)
+    return tuple(_cut(x, d - 1) if isinstance(x, tuple) else x for x in t)
+
+
+def _move_roots(b, l, depth=6):
+    """locals the value of l was moved/copied from (l itself included)"""
+    out = {l}
+    cur = [l]
+    for _ in range(depth):
+        nxt = []
+        for x in cur:
+            for d in b.defs.get(x, ()):
+                if d[0] == "assign" and not d[3] and d[4][0] == "use":
+                    pl = T.op_place(d[4][1])
+                    if pl is not None and not pl[1] and pl[0] not in out:
+                        out.add(pl[0])
+                        nxt.append(pl[0])
+        cur = nxt
+    return out
 
 
 def _refs_local(b, op, l):
